@@ -79,7 +79,9 @@ RULE = (
     "(primal kinds x output kind) configurations. Also in fn: SquaredL2AbsLoss, PoissonLoss (positive operator and point), "
     "Loss/SquaredL2Loss with a nonlinear operator Ax+B conj x+(Cx)^2+c, ProximalAverage. tv: Anisotropic/IsotropicTVNorm "
     "(circular / zero-padded, 1-D/2-D, axes) via the dense matrix of the object's own f.G. l21: 2-D/3-D, int/tuple/None "
-    "axes, identically-zero groups. setdist: box / subspace projections at points outside the set."
+    "axes, identically-zero groups. setdist: box / subspace projections at points outside the set. f32: a worker subprocess "
+    "without jax_enable_x64 runs 30/150 functional expressions, 120 grad/value_and_grad/jacrev option cells and 10/60 operator "
+    "Jacobians at float32/complex64: no raise, 32-bit dtypes preserved, values vs the model at relative 1e-4."
 )
 ASSUMPTIONS = [
     "jax.grad of a real-valued function returns jg with d/dt f(x+td) = Re sum jg_i d_i (contract; its transcription Fn.jaxGrad is proved to satisfy it and is compared with jax.grad each run)",
@@ -1002,6 +1004,164 @@ def stream_defaults(ctx, model):
         else:
             _cmp_vec(ctx, "defaults.grad.argnums", {"n": n, "x": G.enc(x), "y": G.enc(y)}, g0, gq)
             _cmp_vec(ctx, "defaults.value_and_grad.argnums", {"n": n, "x": G.enc(x), "y": G.enc(y)}, vg[1], gq)
+
+
+def stream_default_precision(ctx, model):
+    """the library's DEFAULT mode (a worker subprocess WITHOUT jax_enable_x64: float32 / complex64 data, weak Python scalars):
+    functional expressions (value, grad, value_and_grad), scico.grad / value_and_grad / jacrev with argnums / has_aux on mixed
+    real/complex arguments, Operator.jvp / vjp (both flags and default) / cvjp / linop.jacobian (+- include_eval).  Required:
+    nothing raises, every gradient / cotangent has the dtype of the argument it belongs to (32 bit), values agree with the
+    model (float64) at relative tolerance 1e-4 (vector-wise), conjugation conventions unchanged.  A value drift is reported only
+    if the property oracle (Re<g,d> against a float32 central difference, computed by the worker) confirms it."""
+    import os
+    import subprocess
+    import sys
+
+    rng = ctx.rng
+    items, meta = [], []
+    tries = 0
+    while sum(1 for i in items if i["kind"] == "fn") < ctx.n(30, 150) and tries < 2000:
+        tries += 1
+        cplx = bool(rng.random() < 0.5)
+        n = int(rng.integers(1, 5))
+        t = G.gen_tree(rng, n, cplx, int(rng.integers(0, 3)))
+        if not cplx and rng.random() < 0.1:
+            t = G.gen_poisson_tree(rng, n)
+        x = _gen_point(rng, t, n, cplx)
+        if x is None:
+            continue
+        mk, mb = G.margin(t, x)
+        if mk < 5e-2 or mb < 5e-2:
+            continue  # binary32 rounding / the difference stencil could change the branch
+        got = model.call("fn", n=n, x=G.cv(x), f=G.to_model(t, n))
+        mval, mg = common.b2f(got["eval"]), G.from_cv(got["grad"])
+        if not (np.isfinite(mval) and abs(mval) < 1e4 and np.all(np.abs(mg) < 1e4)):
+            continue
+        dirs = [G.enc(G.dy(rng, (n,), cplx, bits=2, scale=1.0)) for _ in range(3)]
+        items.append({"kind": "fn", "tree": t, "n": n, "cplx": cplx, "x": G.enc(x), "dirs": dirs})
+        meta.append({"val": mval, "grad": mg})
+    # api: one table, every dtype combination of the three arguments
+    ns, m = [int(rng.integers(1, 3)) for _ in range(3)], int(rng.integers(1, 3))
+    As, y = [G.dy(rng, (m, k), True, bits=2) for k in ns], G.dy(rng, (m,), True, bits=2)
+    offs = np.concatenate([[0], np.cumsum(ns)])
+    for kbits in range(8):
+        kinds = [bool(kbits & 1), bool(kbits & 2), bool(kbits & 4)]
+        xs = [G.dy(rng, (k,), c, bits=2) for k, c in zip(ns, kinds)]
+        xcat = np.concatenate([np.asarray(v, dtype=np.complex128) for v in xs])
+        tq = {"k": "sqL2Loss", "s": 1.0, "op": {"kind": "matrix", "m": m, "M": G.enc(np.hstack(As))}, "y": G.enc(y), "w": None}
+        got = model.call("fn", n=int(sum(ns)), x=G.cv(xcat), f=G.to_model(tq, int(sum(ns))))
+        mg, mval = G.from_cv(got["grad"]), common.b2f(got["eval"])
+        rows = []
+        for r in range(m):
+            wk = [0.0] * m
+            wk[r] = 1.0
+            rows.append(G.from_cv(model.call("fn", n=int(sum(ns)), x=G.cv(xcat), f=G.to_model(dict(tq, w=wk), int(sum(ns))))["grad"]))
+        for an in (1, (0, 1), (1, 2)):
+            for aux in (False, True):
+                for api in ("grad", "value_and_grad", "jacrev"):
+                    if api == "jacrev" and aux:
+                        continue
+                    items.append({"kind": "api", "ns": ns, "m": m, "kinds": kinds, "As": [G.enc(a) for a in As], "y": G.enc(y),
+                                  "xs": [G.enc(v) for v in xs], "argnums": list(an) if isinstance(an, tuple) else an, "has_aux": aux, "api": api})
+                    meta.append({"val": mval, "grad": mg, "rows": rows, "offs": offs})
+    for _ in range(ctx.n(10, 60)):
+        cplx = bool(rng.random() < 0.6)
+        n, m2 = int(rng.integers(1, 4)), int(rng.integers(1, 4))
+        A, C = G.dy(rng, (m2, n), cplx, bits=2), G.dy(rng, (m2, n), cplx, bits=2, scale=1.0)
+        B = G.dy(rng, (m2, n), cplx, bits=2) if (cplx and rng.random() < 0.5) else np.zeros((m2, n))
+        c0, u, v, w = G.dy(rng, (m2,), cplx, bits=2), G.dy(rng, (n,), cplx, bits=2), G.dy(rng, (n,), cplx, bits=2), G.dy(rng, (m2,), cplx, bits=2)
+        gop = model.call("opjac", n=n, m=m2, F={"A": G.cmat(A), "B": G.cmat(B), "C": G.cmat(C), "c": G.cv(c0)}, u=G.cv(u), v=G.cv(v), w=G.cv(w))
+        items.append({"kind": "jac", "n": n, "m": m2, "cplx": cplx, "A": G.enc(A), "B": G.enc(B), "C": G.enc(C), "c0": G.enc(c0),
+                      "u": G.enc(u), "v": G.enc(v), "w": G.enc(w)})
+        meta.append({k_: G.from_cv(gop[k_]) for k_ in ("eval", "jvp", "vjp", "vjp_noconj")})
+    p = subprocess.run([sys.executable, str(common.VERIF / "harness" / "autograd_f32_worker.py")],
+                       input=json.dumps({"repo": str(common.REPO), "items": items}), capture_output=True, text=True,
+                       env={k_: v_ for k_, v_ in os.environ.items() if k_ != "JAX_ENABLE_X64"})
+    if p.returncode != 0:
+        raise common.Infra("default-precision worker failed: " + p.stderr[-800:])
+    results = json.loads(p.stdout)["results"]
+    if len(results) != len(items):
+        raise common.Infra("default-precision worker: result count mismatch")
+
+    def near(a, b, k=16):
+        a, b = np.asarray(a, dtype=np.complex128).ravel(), np.asarray(b, dtype=np.complex128).ravel()
+        return a.shape == b.shape and (a.size == 0 or float(np.max(np.abs(a - b))) <= 1e-4 * k * (1.0 + float(np.max(np.abs(b)))))
+
+    MODE = "default precision (jax_enable_x64 off)"
+    for it, me, rec in zip(items, meta, results):
+        kind = it["kind"]
+        cdesc = {k_: v_ for k_, v_ in it.items() if k_ not in ("dirs",)}
+        cdesc["mode"] = MODE
+        ctx.case({"tag": "f32", "kind": kind, "cplx": it.get("cplx"), "kinds": G.kinds(it["tree"]) if kind == "fn" else it.get("kinds"),
+                  "argnums": str(it.get("argnums")), "api": it.get("api"), "has_aux": it.get("has_aux")},
+                 ("f32", kind, json.dumps({k_: it.get(k_) for k_ in ("cplx", "kinds", "argnums", "api", "has_aux", "n", "m")}, sort_keys=True),
+                  tuple(G.kinds(it["tree"])) if kind == "fn" else None))
+        ctx.count(f"f32:{kind}")
+        if rec.get("raised"):
+            ctx.disagree(f"f32.{kind}.raised", cdesc, rec, "a value, no error", oracle=lambda c, rec=rec: dict(rec, mode=MODE))
+            continue
+        if kind == "fn":
+            want_dt = "complex64" if it["cplx"] else "float32"
+            if not (rec["grad_dtype"] == rec["x_dtype"] == rec["vg_dtype"] == want_dt):
+                ctx.disagree("f32.fn.dtype", cdesc, {k_: rec[k_] for k_ in ("grad_dtype", "vg_dtype", "x_dtype")}, want_dt,
+                             oracle=lambda c, rec=rec: {"mode": MODE, "grad_dtype": rec["grad_dtype"], "argument_dtype": rec["x_dtype"]})
+                continue
+            ok = near([rec["val"]], [me["val"]]) and near([rec["vg_val"]], [me["val"]]) and near(G.dec(rec["grad"]), me["grad"]) and near(G.dec(rec["vg_grad"]), me["grad"])
+            if not ok:
+                pr = rec.get("property") or {}
+                if pr.get("rel_err", 0.0) > 2e-2 or not np.isfinite(pr.get("rel_err", 0.0)):
+                    ctx.disagree("f32.fn.grad", cdesc, {"val": rec["val"], "grad": rec["grad"]}, {"val": me["val"], "grad": G.enc(me["grad"])},
+                                 oracle=lambda c, pr=pr: dict(pr, mode=MODE, x=c["x"]))
+                else:
+                    ctx.count("f32:value-drift-not-confirmed-by-the-property-oracle")
+        elif kind == "api":
+            an = it["argnums"]
+            sel = an if isinstance(an, list) else [an]
+            offs = me["offs"]
+            bad = None
+            if len(rec["grads"]) != len(sel):
+                bad = {"what": "number of gradients", "got": len(rec["grads"]), "want": len(sel)}
+            for i, genc, gdt in zip(sel, rec["grads"], rec["grad_dtypes"]):
+                if bad:
+                    break
+                if gdt != rec["arg_dtypes"][i]:
+                    bad = {"what": "dtype of the gradient of argument %d" % i, "got": gdt, "want": rec["arg_dtypes"][i]}
+                    break
+                g = G.dec(genc)
+                if it["api"] == "jacrev":
+                    want = np.concatenate([r_[offs[i]:offs[i + 1]] for r_ in me["rows"]])
+                else:
+                    want = me["grad"][offs[i]:offs[i + 1]]
+                if not it["kinds"][i]:
+                    want = want.real
+                if not near(g, want):
+                    bad = {"what": "gradient of argument %d" % i, "got": genc, "want": G.enc(want)}
+            if not bad and rec["val"] is not None and not near([rec["val"]], [me["val"]]):
+                bad = {"what": "value", "got": rec["val"], "want": me["val"]}
+            if bad:
+                # the function is a quadratic: the model gradient IS the derivative (C07_quadratic); a wrong value / conjugation
+                # at 1e-4 relative is a failure of the property, no further oracle needed
+                ctx.disagree("f32.api", cdesc, bad, "model", oracle=lambda c, bad=bad: dict(bad, mode=MODE))
+        else:
+            want_dt = "complex64" if it["cplx"] else "float32"
+            dts_ = [rec["jvp_dtype"], rec["vjp_dtype_True"], rec["vjp_dtype_False"], rec["cvjp_dtype"]] + rec["jdtypes_False"] + rec["jdtypes_True"]
+            bad = None
+            if any(d_ != want_dt for d_ in dts_):
+                bad = {"what": "dtype", "got": sorted(set(dts_)), "want": want_dt}
+            checks = [("value", rec["value"], me["eval"]), ("jvp", rec["jvp"], me["jvp"]), ("vjp(conjugate=True)", rec["vjp_True"], me["vjp"]),
+                      ("vjp(conjugate=False)", rec["vjp_False"], me["vjp_noconj"]), ("vjp()", rec["vjp_default"], me["vjp"]), ("cvjp", rec["cvjp"], me["vjp"]),
+                      ("jacobian.eval", rec["jeval_False"][-1], me["jvp"]), ("jacobian.adj", rec["jadj_False"][-1], me["vjp"]),
+                      ("jacobian(include_eval).eval[1]", rec["jeval_True"][-1], me["jvp"]), ("jacobian(include_eval).adj[1]", rec["jadj_True"][-1], me["vjp"]),
+                      ("jacobian(include_eval).eval[0]", rec["jeval_True"][0], me["eval"]), ("jacobian(include_eval).adj[0]", rec["jadj_True"][0], me["eval"])]
+            if not bad and (len(rec["jeval_False"]) != 1 or len(rec["jeval_True"]) != 2 or len(rec["jadj_True"]) != 2):
+                bad = {"what": "block count"}
+            for nm, a, b in checks:
+                if bad:
+                    break
+                if not near(G.dec(a), b):
+                    bad = {"what": nm, "got": a, "want": G.enc(b)}
+            if bad:
+                ctx.disagree("f32.jac", cdesc, bad, "model (Op.jvp is the derivative, C07_operator_jacobian)", oracle=lambda c, bad=bad: dict(bad, mode=MODE))
 
 
 def stream_kinks(ctx, model):
@@ -2740,7 +2900,7 @@ def correspond(ctx, model):
     common.setup_scico()
     warnings.filterwarnings("ignore", message="Casting complex values to real")
     for stream in (run_corpus, stream_boundary, stream_l21, stream_tv, stream_setdist, stream_setdist_convex, stream_nuclear, stream_linop_loss, stream_kinks, stream_defaults, stream_fn, stream_blocks, stream_single, stream_real_arg,
-                   stream_div_reject, stream_jac, stream_optree, stream_jac_block, stream_jac_mixed, stream_function, stream_hess, stream_heap, stream_heap_exhaustive, stream_autograd_api, stream_api_table, stream_linadj2):
+                   stream_div_reject, stream_jac, stream_optree, stream_jac_block, stream_jac_mixed, stream_function, stream_hess, stream_heap, stream_heap_exhaustive, stream_autograd_api, stream_api_table, stream_linadj2, stream_default_precision):
         _guard(ctx, model, stream)
 
 
